@@ -25,6 +25,9 @@ func crashPoints(n int) []string {
 }
 
 func pointClass(p string) string {
+	if i := strings.Index(p, "+"); i > 0 {
+		return "delayed-kill-after-" + strings.Replace(p[:i], ":", "-", 1)
+	}
 	s := strings.Split(p, ":")
 	if len(s) >= 2 {
 		return s[0] + ":" + s[1]
@@ -44,7 +47,7 @@ func checkC08(tier string) int {
 	every := tierN(tier, 4, 3)
 	seed := verdict.Seed()
 	r.Gate("crash_points", nh*6)
-	r.Gate("crash_classes", 6)
+	r.Gate("crash_classes", 8)
 	classes := map[string]bool{}
 	var cmu sync.Mutex
 	parallel(nh, 7, func(i int) {
@@ -65,6 +68,15 @@ func checkC08(tier string) int {
 				return nil
 			}
 			pts := crashPoints(len(base.Txs))
+			// plus kills that land inside a call: some microseconds after a boundary (inside SaveBlock, inside
+			// the application's Commit, inside Tendermint's state save, ...)
+			for _, bnd := range []string{"before:SaveBlock", "after:SaveBlock", "before:Commit", "before:Commit", "after:Commit", "after:EndBlock"} {
+				span := 2500
+				if strings.HasSuffix(bnd, "SaveBlock") {
+					span = 300
+				}
+				pts = append(pts, fmt.Sprintf("%s+%d", bnd, crng.Intn(span)))
+			}
 			point = pts[ptIdx%len(pts)]
 			ptIdx++
 			alt := base
@@ -79,7 +91,7 @@ func checkC08(tier string) int {
 					r.Violate(verdict.Violation{Signature: "C08/died-after-restart/" + crashClass(crasher.Box.LogTail(3000)), What: fmt.Sprintf("history seed %d: the restarted node died executing block %d", hseed, blk.H), Witness: map[string]interface{}{"seed": hseed, "height": blk.H, "log": crasher.Box.LogTail(2500)}})
 					return true
 				}
-				if idx, x, y := hist.FirstDiff(hist.Project(blk.Resp[0].Calls), hist.Project(blk.Resp[1].Calls)); idx >= 0 {
+				if idx, x, y := hist.FirstDiff(hist.ProjectResults(blk.Resp[0].Calls), hist.ProjectResults(blk.Resp[1].Calls)); idx >= 0 {
 					r.Violate(verdict.Violation{Signature: "C08/continued/" + strings.ToLower(strings.SplitN(x+" ", " ", 2)[0]), What: fmt.Sprintf("history seed %d block %d: uninterrupted %q | node restarted earlier %q", hseed, blk.H, x, y), Witness: map[string]interface{}{"seed": hseed, "height": blk.H, "recipes": run.Recipes()}})
 					return true
 				}
@@ -134,6 +146,14 @@ func checkC08(tier string) int {
 				r.Inconclusive(fmt.Sprintf("history seed %d: no Info call recorded at restart", hseed))
 				return true
 			}
+			delayed := strings.Contains(point, "+")
+			if delayed && info.InfoHeight == blk.H && !strings.HasPrefix(point, "before:SaveBlock") {
+				// the kill came somewhere inside a call: either commit may be the last completed one
+				wantH, wantHash = blk.H, blk.Commit.AppHash
+			}
+			if delayed {
+				r.Count(fmt.Sprintf("inside-call-kill:app-at-h%+d", info.InfoHeight-blk.H), 1)
+			}
 			if info.InfoHeight != wantH || (wantHash != "" && info.AppHash != wantHash) {
 				r.Case(fmt.Sprintf("%d/%d/%s", hseed, blk.H, point), true)
 				r.Violate(verdict.Violation{Signature: "C08/info/" + pc, What: fmt.Sprintf("history seed %d: killed at %s of block %d; after restart Info reports height %d hash %s, the last completed commit is height %d hash %s", hseed, point, blk.H, info.InfoHeight, info.AppHash, wantH, wantHash), Witness: map[string]interface{}{"seed": hseed, "height": blk.H, "point": point}})
@@ -141,6 +161,24 @@ func checkC08(tier string) int {
 			}
 			// after the handshake the node must be at height h (Tendermint had
 			// saved the block), and the replayed calls must equal the leader's
+			if delayed && boot.Height == blk.H-1 && (strings.HasPrefix(point, "before:SaveBlock") || strings.HasPrefix(point, "after:SaveBlock")) {
+				// Tendermint had not (completely) saved the block: it is proposed again and must execute
+				// exactly as on the uninterrupted node
+				r.Count("inside-call-kill:block-not-saved-resent", 1)
+				again := *blk.Recipe
+				again.Crash, again.Inject, again.Concurrent = "", nil, nil
+				resp, err := crasher.Box.Block(&again)
+				r.Case(fmt.Sprintf("%d/%d/%s", hseed, blk.H, point), true)
+				if err != nil || resp.Err != "" || resp.ApplyErr != "" {
+					r.Violate(verdict.Violation{Signature: "C08/recovery/" + pc + "/block-proposed-again", What: fmt.Sprintf("history seed %d: killed at %s of block %d before the block was saved; after the restart the same block cannot be executed (%v %s)", hseed, point, blk.H, err, crashClass(crasher.Box.LogTail(4000))), Witness: map[string]interface{}{"seed": hseed, "height": blk.H, "point": point, "log": crasher.Box.LogTail(3000)}})
+					return true
+				}
+				if idx, x, y := hist.FirstDiff(hist.ProjectResults(blk.Resp[0].Calls), hist.ProjectResults(resp.Calls)); idx >= 0 {
+					r.Violate(verdict.Violation{Signature: "C08/continued/" + pc + "/" + strings.ToLower(strings.SplitN(x+" ", " ", 2)[0]), What: fmt.Sprintf("history seed %d: killed at %s of block %d; the block proposed again gave %q where the uninterrupted node gave %q", hseed, point, blk.H, y, x), Witness: map[string]interface{}{"seed": hseed, "height": blk.H, "point": point}})
+					return true
+				}
+				return false
+			}
 			if boot.Height != blk.H {
 				r.Case(fmt.Sprintf("%d/%d/%s", hseed, blk.H, point), true)
 				r.Violate(verdict.Violation{Signature: "C08/replay-height/" + pc, What: fmt.Sprintf("history seed %d: killed at %s of block %d; after restart and handshake the node is at height %d", hseed, point, blk.H, boot.Height), Witness: map[string]interface{}{"seed": hseed, "height": blk.H, "point": point, "log": crasher.Box.LogTail(2000)}})
@@ -157,7 +195,7 @@ func checkC08(tier string) int {
 			r.Case(fmt.Sprintf("%d/%d/%s", hseed, blk.H, point), true)
 			if replayed > 0 {
 				r.Count("blocks_replayed_by_handshake", 1)
-				if idx, x, y := hist.FirstDiff(hist.Project(blk.Resp[0].Calls), hist.Project(rep)); idx >= 0 {
+				if idx, x, y := hist.FirstDiff(hist.ProjectResults(blk.Resp[0].Calls), hist.ProjectResults(rep)); idx >= 0 {
 					k, d := diffStates(fullDump(run.Reps[0].Box), fullDump(crasher.Box))
 					r.Violate(verdict.Violation{Signature: "C08/replayed/" + pc + "/" + strings.ToLower(strings.SplitN(x+" ", " ", 2)[0]) + "/key:" + keyClass(k), What: fmt.Sprintf("history seed %d: killed at %s of block %d; the replay during the handshake gave %q where the uninterrupted node gave %q; first differing key %s", hseed, point, blk.H, y, x, d), Witness: map[string]interface{}{"seed": hseed, "height": blk.H, "point": point, "recipes": run.Recipes()}})
 					return true
